@@ -73,6 +73,13 @@ def tree_leaves(t, n):
     return None if a is None or b is None else a + b
 
 
+def tree_depth(t):
+    return 0 if t == "L" else 1 + max(tree_depth(t[2]), tree_depth(t[3]))
+
+
+U53 = Fraction(1, 2**53)
+
+
 def tree_size(t):
     return 0 if t == "L" else 1 + tree_size(t[2]) + tree_size(t[3])
 
@@ -129,6 +136,17 @@ def oracle_trees(ctx, obs):
                 ctx.violation("S5", f"1-D producer of {n} points split along {o['tree'][:60]}: position {i} holds {f64_of_hex(vals[i])!r}, sequential traversal gives {f64_of_hex(seq[i])!r}"
                                     + (" (dyadic range: every operation is exact, the values must be identical)" if exact_root(r) else " (more than 1e-14 of the range scale apart)"),
                               sig("tree_values"), dict(inp, position=i, got=vals[i], sequential=seq[i], n_bad=len(bad)))
+            # the PROVED float bound (C15_1d_float_bound_partial): tree value and sequential value are each within
+            # ((1+4u)^(D+1) - 1) resp. 4u of the exact value, in units of the range scale; the implementation meeting it validates the float model
+            if not bad and scale >= Fraction(1, 10**290):
+                bound = ((1 + 4 * U53) ** (tree_depth(t) + 1) - 1 + 4 * U53) * scale
+                worst = max((abs(H(a) - H(b)) for a, b in zip(vals, seq)), default=Fraction(0))
+                ctx.cov["obligations"] += 1
+                if worst <= bound:
+                    ctx.cov["discharged"] += 1
+                else:
+                    ctx.violation("S4", f"float model: a 1-D split tree of depth {tree_depth(t)} deviates from the sequential values by {float(worst / scale):.3e} of the range scale, "
+                                        f"more than the proved bound {float(bound / scale):.3e}", {"kind": "float_model_mismatch"}, dict(inp, worst=float(worst), bound=float(bound)), found_input=False)
             if "enum_idx" in o and (o["enum_idx"] != list(range(n)) or o["enum_vals"] != vals):
                 ctx.violation("S5", "1-D producer under enumerate(): positions are not 0,1,2,… in order with the same points", sig("tree_enumerate"), dict(inp, idx=o["enum_idx"][:16]))
             if o.get("enum_panic"):
@@ -421,7 +439,7 @@ def run(ctx):
                        "counts, HOM rate/visibility, nested parallel quadrature inside a parallel grid.  distinct = distinct (root bits, tree, direction)")
     ctx.cov["clauses"] = {
         "2-D grid: same points, same positions, any split tree": "proved (any carrier => bit-exact) + validated on the real split_at",
-        "1-D range: any split tree": "proved over the reals; 1e-14 float clause validated_only (exact on dyadic ranges)",
+        "1-D range: any split tree": "proved over the reals; float clause proved_partial (Flocq, FLX-53 rounding of every operation: ((1+4u)^(depth+1)-1) of the range scale; guard: no overflow/underflow) and checked against the harness",
         "len contract of reachable producers": "proved",
         "enumerate / indexed collect deliver point k at position k": "proved (model of rayon's EnumerateProducer / CollectConsumer)",
         "reductions (sums) independent of the tree": "proved in any monoid (R, C); 1e-12 float clause validated_only on pools of 1..16 threads",
